@@ -21,6 +21,8 @@ func c05(c *eng.Ctx, r *eng.Report) {
 		"R5.4 the state commit (account trie then node database, both error-checked) precedes the head update; " +
 		"R5.5 every removeFromCommonAncestor call is guarded by the chain-weight comparison with the right operand roles (coming vs local, local competitor taken at the fork point); " +
 		"R5.6 transactions are marked executed before the head moves and unmarked on every successful removal, UnMarkExecuted deletes the executed record before it re-adds the transaction, and the pending container takes the re-added transaction unless it is full; R5.8 the header cache that height lookups read is evicted by remove(); R5.7 block verification precedes insertion and checkStates compares state, receipt and tx roots. " +
+		"R5.9 the in-memory head pointer and the head record on disk move together: a function that assigns blockChain.latestBlock writes the head record (heightDB key latestBlockKey) before the assignment or on every path from it to a return, start-up loading excepted; " +
+		"R5.3 (content) an intent mark carries the whole block — what is put under a mark key is the output of MarshalBlock and what recovery hands to remove() is the UnMarshalBlock of what it read — because remove() needs the transactions to roll the executed marks back. " +
 		"Not decided: that every intermediate crash state is repaired (needs fault injection), reachability of the head from genesis as a data invariant, disk errors."
 	r.Assume = []string{"LevelDB single-key writes are atomic", "blockChain methods run under the chain lock (not checked here)"}
 	c05Brackets(c, r)
@@ -30,6 +32,8 @@ func c05(c *eng.Ctx, r *eng.Report) {
 	c05ForkChoice(c, r)
 	c05Verify(c, r)
 	c05HeaderCache(c, r)
+	c05HeadRecord(c, r)
+	c05MarkContent(c, r)
 	// the second half of R5.6: what UnMarkExecuted does with a removed block's transactions (shared with C17)
 	c17UnmarkAs(c, r, "R5.6")
 	c17PushTotalAs(c, r, "R5.6")
@@ -767,4 +771,163 @@ func orderTable(fn *ssa.Function, local, remote string) string {
 		}
 	}
 	return ""
+}
+
+// c05HeadRecord: each removal (and each insertion) leaves the head record on
+// disk naming the block the in-memory head pointer names. A removal that moves
+// the pointer but leaves the record to a later removal has a window — between
+// two removals of a multi-block reorg no intent mark exists — in which a crash
+// leaves a recorded head that is in neither index.
+func c05HeadRecord(c *eng.Ctx, r *eng.Report) {
+	const rule = "R5.9"
+	r.Min(rule, 2)
+	n := 0
+	for _, fn := range c.PkgFuncs("core") {
+		if c.IsTestFunc(fn) {
+			continue
+		}
+		stores := eng.FieldStores(fn, "core.blockChain", "latestBlock")
+		if len(stores) == 0 {
+			continue
+		}
+		name := eng.FuncName(fn)
+		var puts []ssa.Instruction
+		for _, op := range dbOps(fn) {
+			if op.Call.Method.Name() == "Put" && strings.HasSuffix(eng.Desc(op.Call.Value), ".heightDB") && strings.Contains(eng.Desc(op.Call.Args[0]), "bcurrent") {
+				puts = append(puts, op)
+			}
+		}
+		for i, st := range stores {
+			key := fmt.Sprintf("head-record:%s#%d", name, i)
+			// start-up: the pointer is loaded from the record
+			if v := st.(*ssa.Store).Val; strings.Contains(eng.Desc(v), "QueryBlockHeaderByHeight") || strings.Contains(eng.Desc(v), "bcurrent") {
+				r.Pass(rule, key, c.Pos(st.Pos()), "head pointer loaded from the head record")
+				n++
+				continue
+			}
+			n++
+			ok := false
+			for _, p := range puts {
+				if eng.Dominates(p, st) {
+					ok = true
+				}
+			}
+			if !ok && len(puts) > 0 {
+				ok = true
+				isPut := func(in ssa.Instruction) bool {
+					for _, p := range puts {
+						if p == in {
+							return true
+						}
+					}
+					return false
+				}
+				for _, re := range eng.Returns(fn) {
+					if reach, _ := eng.ReachAvoiding(fn, st, re, isPut); reach {
+						ok = false
+					}
+				}
+			}
+			r.Check(ok, rule, key, c.Pos(st.Pos()), "the head record is written before the pointer moves or on every path after it", name+" moves the head pointer (blockChain.latestBlock) on a path that does not write the head record (heightDB[latestBlockKey]): pointer and record disagree until some later write, and no intent mark covers that window — a crash there leaves a recorded head that the indexes no longer contain")
+		}
+	}
+	r.Check(n >= 3, rule, "head-record:sites", "", fmt.Sprintf("%d head-pointer assignments", n), fmt.Sprintf("only %d assignments of blockChain.latestBlock found (initBlockChain, remove, updateLastBlock expected)", n))
+}
+
+func derivesFromCall(v ssa.Value, callee string, depth int) bool {
+	seen := map[ssa.Value]bool{}
+	var walk func(v ssa.Value, d int) bool
+	walk = func(v ssa.Value, d int) bool {
+		if v == nil || d > depth || seen[v] {
+			return false
+		}
+		seen[v] = true
+		if call, ok := v.(*ssa.Call); ok {
+			return eng.CallName(&call.Call) == callee
+		}
+		switch x := v.(type) {
+		case *ssa.Extract:
+			return walk(x.Tuple, d+1)
+		case *ssa.Phi:
+			for _, e := range x.Edges {
+				if !walk(e, d+1) {
+					return false
+				}
+			}
+			return len(x.Edges) > 0
+		case *ssa.ChangeType:
+			return walk(x.X, d+1)
+		case *ssa.UnOp:
+			if x.Op == token.MUL {
+				return walk(eng.ResolveLocal(x), d+1) && eng.ResolveLocal(x) != ssa.Value(x)
+			}
+		}
+		return false
+	}
+	return walk(v, 0)
+}
+
+// c05MarkContent: remove() rolls back the indexes, the head and — through
+// UnMarkExecuted(block) — the executed marks of the block's transactions. The
+// recovery re-runs remove() on what the mark holds, so the mark must hold the
+// block with its transactions.
+func c05MarkContent(c *eng.Ctx, r *eng.Report) {
+	const rule = "R5.3"
+	n := 0
+	for _, fn := range c.PkgFuncs("core") {
+		if c.IsTestFunc(fn) {
+			continue
+		}
+		for _, op := range dbOps(fn) {
+			if op.Call.Method.Name() != "Put" || !strings.HasSuffix(eng.Desc(op.Call.Value), ".hashDB") {
+				continue
+			}
+			k := eng.Desc(op.Call.Args[0])
+			if !strings.Contains(k, "BlockMark") && !strings.Contains(k, "addBlock") && !strings.Contains(k, "removeBlock") {
+				continue
+			}
+			n++
+			name := eng.FuncName(fn)
+			key := "mark-content:" + name
+			val := op.Call.Args[1]
+			if prm, isP := val.(*ssa.Parameter); isP {
+				idx := -1
+				for i, q := range fn.Params {
+					if q == prm {
+						idx = i
+					}
+				}
+				callers := c.Callers(fn)
+				ok := len(callers) > 0
+				bad := ""
+				for _, site := range callers {
+					if idx < 0 || idx >= len(site.Common().Args) || !derivesFromCall(site.Common().Args[idx], "middleware/types.MarshalBlock", 4) {
+						ok = false
+						bad = eng.FuncName(site.Fn) + " (" + c.Pos(site.Pos()) + ")"
+					}
+				}
+				r.Check(ok, rule, key, c.Pos(op.Pos()), "every caller passes the output of MarshalBlock", "the intent mark written by "+name+" does not hold the marshalled block: "+bad+" passes something else — after a crash the recovery cannot hand remove() the block's transactions, so their executed records survive the rollback and the rolled-back block (and any block carrying those transactions) is refused for ever")
+				continue
+			}
+			r.Check(derivesFromCall(val, "middleware/types.MarshalBlock", 4), rule, key, c.Pos(op.Pos()), "the mark holds the output of MarshalBlock", "the intent mark written by "+name+" is not the output of MarshalBlock: the recovery cannot rebuild the block with its transactions")
+		}
+	}
+	ecc := c.Func("core", "(*blockChain).ensureChainConsistency")
+	if ecc != nil {
+		cone := c.ConeOf([]*ssa.Function{ecc}, func(fn *ssa.Function) bool {
+			return eng.FuncPkgPath(fn) == eng.Mod+"/src/core" && eng.FuncName(fn) != "(*core.blockChain).remove"
+		})
+		for _, fn := range cone.Sorted() {
+			if fn.Blocks == nil || eng.FuncName(fn) == "(*core.blockChain).remove" {
+				continue
+			}
+			for i, rm := range callsNamed(fn, "(*core.blockChain).remove") {
+				n++
+				args := rm.Common().Args
+				ok := len(args) >= 2 && derivesFromCall(args[1], "middleware/types.UnMarshalBlock", 4)
+				r.Check(ok, rule, fmt.Sprintf("recovery-block:%s#%d", eng.FuncName(fn), i), c.Pos(rm.Pos()), "remove() is given the UnMarshalBlock of the mark", "the recovery in "+eng.FuncName(fn)+" hands remove() something other than the UnMarshalBlock of the mark it read (e.g. a header-only block): the rollback cannot unmark the block's transactions")
+			}
+		}
+	}
+	r.Check(n >= 4, rule, "mark-content:sites", "", fmt.Sprintf("%d mark writes / recovery removals", n), fmt.Sprintf("only %d mark writes and recovery removals found (2 + 2 expected)", n))
 }
